@@ -98,12 +98,14 @@ def _work(units):
             impl.build(poison)
             n0 = len(acc.viol)
             for tag, ast, envs in list(ei.sharing())[:6] + list(ei.nested_tuples())[:2]:
+                impl.build(poison)
                 run_case(acc, "after:" + tag, ast, envs, reserved)
             for v in acc.viol[n0:]:
                 v["before"] = poison
             for name in ("basic_experiment", "salt", "comments", "full_grammar", "readme_complete"):
                 text = eb.all_bases()[name]
                 acc.add("programs")
+                impl.build(poison)
                 b = impl.build(text)
                 acc.outcomes.add("after:" + b[0])
                 if b[0] != "ok":
